@@ -44,6 +44,24 @@ def generate(rng, tier, index):
         for _ in range(rng.randint(4, 8)):
             pts.append({'x': [round(rng.uniform(0.02, 0.16), 4), round(rng.uniform(0.02, 0.16), 4)], 'T': rng.choice([973.0, 1073.0, 1173.0, round(rng.uniform(900, 1250), 1)])})
         return {'kind': 'elements_thermo', 'points': pts}
+    if k in (6, 7):
+        from ksim import diffworld as DW
+        real = rng.random() < 0.08
+        cfg = DW.gen_config(rng, model='single', real_ok=False)
+        while len(cfg['all_elements']) < 3:
+            cfg = DW.gen_config(rng, model='single', real_ok=False)
+        cfg['record'] = True
+        if real:
+            cfg.update({'provider': 'real_nicral_fcc', 'all_elements': ['NI', 'CR', 'AL'], 'phases': ['FCC_A1'], 'N': rng.randint(5, 9), 'bcs': {}, 'T': {'kind': 'const', 'T': 1273.0}})
+            cfg.pop('synth', None)
+            cfg['profiles'] = {'CR': {'kind': 'linear', 'a': 0.06, 'b': 0.12, 'pos': 0.5}, 'AL': {'kind': 'step', 'a': 0.11, 'b': 0.05, 'pos': 0.5}}
+        n = len(cfg['all_elements']) - 1
+        perm = list(range(n))
+        while perm == list(range(n)):
+            rng.shuffle(perm)
+        if real:
+            perm = [1, 0]
+        return {'kind': 'elements_diffusion', 'cfg': cfg, 'ops': DW.gen_ops(rng, real=real), 'perm': perm}
     if k == 8 and tier == 'thorough' and rng.random() < 0.3:
         cfg = W.real_config('real_almgsi')
         ops = [{'op': 'solve', 'T': 100.0, 'it': 'euler', 'minf': 2e-2, 'maxf': 1.0}, {'op': 'solve', 'T': 1000.0, 'it': rng.choice(['euler', 'rk4']), 'minf': 2e-2, 'maxf': 1.0}]
@@ -62,7 +80,10 @@ _ELEM = {}
 
 
 def prepare(tier, recs):
-    W.preload([r['cfg']['backend'] for r in recs if 'cfg' in r])
+    W.preload([r['cfg']['backend'] for r in recs if 'cfg' in r and 'backend' in r['cfg']])
+    if any(r['kind'] == 'elements_diffusion' and r['cfg']['provider'] != 'synth' for r in recs):
+        from ksim import diffworld as DW
+        DW.preload(['real_nicral_fcc', 'real_nicral_fcc_perm'])
     if any(r['kind'] == 'elements_thermo' for r in recs) and not _ELEM:
         from kawin.thermo import MulticomponentThermodynamics
         from kawin.tests import datasets as ds
